@@ -622,9 +622,10 @@ theorem warmStart_in_box (s : RS) (a1 : Nat → Rat) (bias : Bool)
   · exact hc
 
 open Classical in
-/-- **with bias the warm-start vector sums to zero whenever clipping changed a coefficient** (exactly, in exact
-arithmetic): this is what the repair of F-C07-2 establishes, and `sum_inv` (C08) keeps it for the whole run -/
-theorem warmStart_sum_zero (s : RS) (a1 : Nat → Rat) (hclip : anyClip s a1) :
+/-- **with bias the warm-start vector sums to zero whenever clipping changed a coefficient or the two sides of the given
+vector differ by more than `1e-12` relative** (`mustBalance`; exactly, in exact arithmetic): this is what the repairs of
+F-C07-2 and F-C07-9 establish, and `sum_inv` (C08) keeps it for the whole run -/
+theorem warmStart_sum_zero (s : RS) (a1 : Nat → Rat) (hclip : mustBalance s a1) :
     rsum (warmStartVector s a1 true) s.n = 0 := by
   have hsplit : rsum (clipv s a1) s.n = warmP s a1 - warmN s a1 := by
     unfold warmP warmN; rw [← rsum_sub]; apply rsum_congr; intro i _; split <;> ring
@@ -632,7 +633,7 @@ theorem warmStart_sum_zero (s : RS) (a1 : Nat → Rat) (hclip : anyClip s a1) :
   · have : rsum (warmStartVector s a1 true) s.n = rsum (clipv s a1) s.n := by
       apply rsum_congr; intro k _; rw [warmStartVector_apply]; simp [hPN]
     rw [this, hsplit, hPN, sub_self]
-  · have hG : ¬ (¬ anyClip s a1 ∨ warmP s a1 = warmN s a1) := fun h => h.elim (fun h' => h' hclip) hPN
+  · have hG : ¬ (¬ mustBalance s a1 ∨ warmP s a1 = warmN s a1) := fun h => h.elim (fun h' => h' hclip) hPN
     have hP := warmP_nonneg s a1
     have hN := warmN_nonneg s a1
     by_cases hgt : warmN s a1 < warmP s a1
@@ -669,27 +670,30 @@ theorem warmStart_sum_zero (s : RS) (a1 : Nat → Rat) (hclip : anyClip s a1) :
       rw [div_mul_cancel₀ _ (ne_of_gt hNpos), sub_self]
 
 open Classical in
-/-- a start vector that already fits the box is passed through unchanged (refined repair b8cdd69a: a feasible solution
-is not rescaled) -- in particular its coefficient sum is whatever it was -/
-theorem warmStart_untouched (s : RS) (a1 : Nat → Rat) (bias : Bool) (h : ¬ anyClip s a1) :
+/-- a start vector that already fits the box and is balanced up to `1e-12` relative is passed through unchanged (refined
+repair b8cdd69a: a previous solution of the same problem is not rescaled) -- its coefficient sum is whatever it was, which
+is at most `1e-12·(ΣP + ΣN)` in absolute value (`warmStart_sum_small`) -/
+theorem warmStart_untouched (s : RS) (a1 : Nat → Rat) (bias : Bool) (h : ¬ mustBalance s a1) :
     ∀ k, k < s.n → warmStartVector s a1 bias k = a1 k := by
   intro k hk
   have hc : clipv s a1 k = a1 k := by
-    by_contra hne; exact h ⟨k, hk, hne⟩
+    by_contra hne; exact h (Or.inl ⟨k, hk, hne⟩)
   rw [warmStartVector_apply]
   split
   · exact hc
   · rw [if_pos (Or.inl h)]; exact hc
 
 /-- **a warm-started C-SVM run starts inside the invariant**, whatever coefficients the previous model carries, and
-with bias its coefficient sum is exactly 0 as soon as clipping changed a coefficient or the previous coefficients summed
-to 0 (a previous vector that fits the box is passed through as it is) -- so `reachable_inv`, `sum_inv` and `stopped_near_optimal_*` apply to warm
+with bias its coefficient sum is exactly 0 as soon as clipping changed a coefficient, the two sides of the previous
+coefficients differ by more than `1e-12` relative (`mustBalance`, repair of F-C07-9) or the previous coefficients summed
+to 0 (a previous vector that fits the box and is balanced up to the tolerance is passed through as it is; its sum is then at
+most `1e-12·(ΣP + ΣN)`: `warm_start_sum_tolerance`) -- so `reachable_inv`, `sum_inv` and `stopped_near_optimal_*` apply to warm
 starts as to cold ones (this is the configuration-independence clause for warm starts, given termination). -/
 theorem warm_start_inv (n : Nat) (K : Nat → Nat → Rat) (y : Nat → Bool) (Cn Cp : Rat) (w : Nat → Rat) (bias sh : Bool)
     (a1 : Nat → Rat) (hsym : ∀ x y, K x y = K y x) (hCn : 0 ≤ Cn) (hCp : 0 ≤ Cp) (hw : ∀ k, k < n → 0 ≤ w k) :
     let s0 := csvmInit2 n K y Cn Cp w bias sh
     Inv (s0.setInitialSolution (warmStartVector s0 a1 bias)) ∧
-    (bias = true → (anyClip s0 a1 ∨ rsum a1 n = 0) →
+    (bias = true → (mustBalance s0 a1 ∨ rsum a1 n = 0) →
       alphaSum (s0.setInitialSolution (warmStartVector s0 a1 bias)) = 0) := by
   intro s0
   have h0 : Inv s0 := csvmInit2_inv n K y Cn Cp w bias sh hsym hCn hCp hw
@@ -701,7 +705,7 @@ theorem warm_start_inv (n : Nat) (K : Nat → Nat → Rat) (y : Nat → Bool) (C
   refine ⟨setInitialSolution_inv h0 rfl _ (warmStart_in_box s0 a1 bias hbox0), ?_⟩
   intro hb hc
   subst hb
-  by_cases hclip : anyClip s0 a1
+  by_cases hclip : mustBalance s0 a1
   · exact warmStart_sum_zero s0 a1 hclip
   · have hz : rsum a1 n = 0 := hc.resolve_left hclip
     show rsum (warmStartVector s0 a1 true) s0.n = 0
@@ -712,6 +716,31 @@ example : ∃ (n : Nat) (K : Nat → Nat → Rat) (Cn Cp : Rat) (w : Nat → Rat
     (∀ x y, K x y = K y x) ∧ 0 ≤ Cn ∧ 0 ≤ Cp ∧ ∀ k, k < n → 0 ≤ w k :=
   ⟨2, fun _ _ => 1, 1, 2, fun _ => 1, fun _ _ => rfl, by norm_num, by norm_num, fun _ _ => by norm_num⟩
 
+
+open Classical in
+/-- **whatever the previous coefficients are, the start vector of a training with bias sums to zero up to the tolerance of
+the C++**: exactly 0 when the trainer re-balances (`mustBalance`), otherwise the clipped vector is the given one and
+`|Σ| = |ΣP − ΣN| ≤ 1e-12·(ΣP + ΣN)`.  With `sum_inv` (C08) / `solve_sum_svm_partial` this bounds the violation of the
+equality constraint of every machine trained from a warm start. -/
+theorem warmStart_sum_small (s : RS) (a1 : Nat → Rat) :
+    |rsum (warmStartVector s a1 true) s.n| ≤ 1 / 1000000000000 * (warmP s a1 + warmN s a1) := by
+  have hP := warmP_nonneg s a1
+  have hN := warmN_nonneg s a1
+  by_cases hb : mustBalance s a1
+  · rw [warmStart_sum_zero s a1 hb, abs_zero]; positivity
+  · have hsplit : rsum (clipv s a1) s.n = warmP s a1 - warmN s a1 := by
+      unfold warmP warmN; rw [← rsum_sub]; apply rsum_congr; intro i _; split <;> ring
+    have hc : ∀ k, k < s.n → clipv s a1 k = a1 k := by
+      intro k hk; by_contra hne; exact hb (Or.inl ⟨k, hk, hne⟩)
+    rw [rsum_congr (warmStart_untouched s a1 true hb), ← rsum_congr hc, hsplit, ← absDiff_eq_abs]
+    exact not_lt.mp (fun h => hb (Or.inr h))
+
+/-- the same for the state the warm-started solver starts from -/
+theorem warm_start_sum_tolerance (n : Nat) (K : Nat → Nat → Rat) (y : Nat → Bool) (Cn Cp : Rat) (w : Nat → Rat) (sh : Bool)
+    (a1 : Nat → Rat) :
+    let s0 := csvmInit2 n K y Cn Cp w true sh
+    |alphaSum (s0.setInitialSolution (warmStartVector s0 a1 true))| ≤ 1 / 1000000000000 * (warmP s0 a1 + warmN s0 a1) :=
+  warmStart_sum_small (csvmInit2 n K y Cn Cp w true sh) a1
 
 /-! ## The offsets of the ε-regression and one-class machines -/
 
@@ -904,7 +933,7 @@ theorem solve_K (strategy : Nat) (eps : Rat) : ∀ (fuel : Nat) (s : RS) (counte
     (solve strategy eps fuel s counter it).1.K = s.K := by
   intro fuel
   induction fuel with
-  | zero => intro s _ _; rfl
+  | zero => intro s _ _; show s.unshrink.K = s.K; unfold State.unshrink; split <;> rfl
   | succ fuel ih =>
     intro s counter it
     obtain ⟨hev, hnext⟩ := solveIter_K strategy eps s counter
@@ -1349,14 +1378,14 @@ example : ∃ (n : Nat) (K : Nat → Nat → Rat) (y : Nat → Bool) (Cn Cp eps 
    fun t ht => by rw [passStates_one _ _ _ _ t ht]; exact sentinelOK_csvmInit2 _ _ _ _ _ _ _ _⟩
 
 /-- FULL STATEMENT (not provable for the code as it is): **the same for a warm-started training with bias**, for every
-coefficient vector `a1` of the previous model that is changed by clipping or sums to 0 (`warm_start_inv`: the start vector
+coefficient vector `a1` of the previous model that is clipped, unbalanced beyond `1e-12` relative (`mustBalance`) or sums to 0 (`warm_start_inv`: the start vector
 `CSvmTrainer::optimize` hands to `setInitialSolution` then sums to 0 exactly): the returned coefficients sum to 0 and are
 `eps`-optimal among the vectors in the boxes with sum 0; the bias lies in the KKT interval.
 PROVED PART: as for the cold start, runs inside the sentinel range `(−1e100, 1e100)` (`hsent`). -/
 theorem csvm_bias_warm_returned_optimal_partial (n : Nat) (K : Nat → Nat → Rat) (y : Nat → Bool) (Cn Cp : Rat)
     (w : Nat → Rat) (eps : Rat) (shrink : Bool) (maxIter : Nat) (a1 : Nat → Rat) (hsym : ∀ x y, K x y = K y x)
     (hpsd : KernelPSD K) (hCn : 0 ≤ Cn) (hCp : 0 ≤ Cp) (hw : ∀ k, k < n → 0 ≤ w k) (heps : 0 < eps)
-    (hz : anyClip (csvmInit2 n K y Cn Cp w true shrink) a1 ∨ rsum a1 n = 0)
+    (hz : mustBalance (csvmInit2 n K y Cn Cp w true shrink) a1 ∨ rsum a1 n = 0)
     (hsent : ∀ t, t ∈ C08.passStates 1 eps maxIter
       ((csvmInit2 n K y Cn Cp w true shrink).setInitialSolution
         (warmStartVector (csvmInit2 n K y Cn Cp w true shrink) a1 true)) 0 → SentinelOK t) :
@@ -1387,7 +1416,7 @@ theorem csvm_bias_warm_returned_optimal_partial (n : Nat) (K : Nat → Nat → R
 
 example : ∃ (n : Nat) (K : Nat → Nat → Rat) (y : Nat → Bool) (Cn Cp eps : Rat) (w a1 : Nat → Rat) (sh : Bool),
     (∀ x y, K x y = K y x) ∧ KernelPSD K ∧ 0 ≤ Cn ∧ 0 ≤ Cp ∧ (∀ k, k < n → 0 ≤ w k) ∧ 0 < eps ∧ 0 < n ∧
-    (anyClip (csvmInit2 n K y Cn Cp w true sh) a1 ∨ rsum a1 n = 0) ∧
+    (mustBalance (csvmInit2 n K y Cn Cp w true sh) a1 ∨ rsum a1 n = 0) ∧
     (∀ t, t ∈ C08.passStates 1 eps 0 ((csvmInit2 n K y Cn Cp w true sh).setInitialSolution
         (warmStartVector (csvmInit2 n K y Cn Cp w true sh) a1 true)) 0 → SentinelOK t) :=
   ⟨2, fun _ _ => 1, fun k => k == 0, 1, 2, 1 / 1000, fun _ => 1, fun _ => 0, false, fun _ _ => rfl, kernelPSD_one,
@@ -1626,14 +1655,14 @@ example : ∃ (n : Nat) (K : Nat → Nat → Rat) (y : Nat → Bool) (Cn Cp eps 
     (∀ x y, K x y = K y x) ∧ KernelPSD K ∧ 0 ≤ Cn ∧ 0 ≤ Cp ∧ (∀ k, k < n → 0 ≤ w k) ∧ 0 < eps ∧
     (∀ t, t ∈ C08.passStates 1 eps maxIter (csvmInit2 n K y Cn Cp w true sh) 0 → SentinelOK t) ∧
     (train2 n K y Cn Cp w eps true sh maxIter).2.1 = true ∧
-    (anyClip (csvmInit2 n K y Cn Cp w true sh) a1 ∨ rsum a1 n = 0) ∧
+    (mustBalance (csvmInit2 n K y Cn Cp w true sh) a1 ∨ rsum a1 n = 0) ∧
     (∀ t, t ∈ C08.passStates 1 eps maxIter ((csvmInit2 n K y Cn Cp w true sh).setInitialSolution
         (warmStartVector (csvmInit2 n K y Cn Cp w true sh) a1 true)) 0 → SentinelOK t) ∧
     (train2Warm n K y Cn Cp w eps true sh maxIter a1).2.1 = true :=
   ⟨2, fun x y => ((x : Rat) + 1) * ((y : Rat) + 1), fun k => k == 0, 1, 2, 1 / 1000, fun _ => 1, fun _ => 7, true, 10,
    fun _ _ => mul_comm _ _, kernelPSD_rank1 (fun x => (x : Rat) + 1), by norm_num, by norm_num,
    fun _ _ => by norm_num, by norm_num, by unfold SentinelOK; decide +kernel, by decide +kernel,
-   Or.inl ⟨0, by decide, by decide +kernel⟩, by unfold SentinelOK; decide +kernel, by decide +kernel⟩
+   Or.inl (Or.inl ⟨0, by decide, by decide +kernel⟩), by unfold SentinelOK; decide +kernel, by decide +kernel⟩
 
 /-- `eps_regression_returned_partial` -/
 example : ∃ (n : Nat) (K : Nat → Nat → Rat) (y : Nat → Rat) (C tube eps : Rat) (sh : Bool) (fuel : Nat),
